@@ -133,6 +133,7 @@ def main():
                     rec['check_rc'] = c.returncode
                     rec['classes'] = re.findall(r'failure class "([^"]+)": (\d+) run', c.stdout)[:6]
                     rec['verdict'] = 'caught' if c.returncode == 1 else 'survived' if c.returncode == 0 else 'check-exit-%d' % c.returncode
+                    if c.returncode == 2 and 'build stopped' in (c.stdout + c.stderr): rec['verdict'] = 'does-not-compile'   # warnings are errors in the /verif build
                     if c.returncode not in (0, 1): rec['tail'] = (c.stdout + c.stderr)[-600:]
         finally:
             open(src, 'w').write(orig)
